@@ -113,9 +113,21 @@ func runCase(phase string, i int) (res worker.Result) {
 	o.Foreign = rng.IntN(3) == 0
 	o.AbsentSubjects = rng.IntN(3) == 0
 	o.SHA512 = rng.IntN(3) == 0
+	wide := phase != "race" && i%40 == 7
+	if wide {
+		// a wide fan-out: one index over a few hundred manifests (many nodes in flight when a layout is loaded)
+		o.Manifests = 80 + rng.IntN(220)
+		o.Blobs = 20
+		o.WideIndex = o.Manifests
+		o.SHA512 = false
+	}
 	g := gen.Generate(rng, o)
 	kinds := []string{"memory", "oci", "oci", "file"}
 	kind := kinds[rng.IntN(len(kinds))]
+	if wide {
+		kind = "oci"
+		res.Count("wide_fanout_cases", 1)
+	}
 	if phase == "race" {
 		kind = []string{"memory", "oci", "file"}[i%3]
 	}
@@ -476,7 +488,11 @@ func runCase(phase string, i int) (res worker.Result) {
 		steps := 2 + rng.IntN(8)
 		foreignLayout, noMoreReopen := false, false
 		for s := 0; s < steps; s++ {
-			switch op := rng.IntN(11); {
+			op := rng.IntN(11)
+			if wide && s == 0 {
+				op = 10 // the wide graph is loaded from a layout that lists its top only
+			}
+			switch {
 			case op == 10: // the layout as other tools write it: index.json lists the tags and the top-level manifests only
 				if noMoreReopen {
 					continue
@@ -875,7 +891,14 @@ func sameSet(a, b map[string]bool) bool {
 func keys(m map[string]bool) []string {
 	var out []string
 	for k := range m {
-		out = append(out, k[strings.Index(k, "|")+1:][:20])
+		short := k[strings.Index(k, "|")+1:]
+		if len(short) > 20 {
+			short = short[:20]
+		}
+		if short == "|0" {
+			short = "<empty descriptor>"
+		}
+		out = append(out, short)
 	}
 	sort.Strings(out)
 	return out
